@@ -18,14 +18,14 @@ log = open(f"/tmp/seedcheck_{p}_{n}.log").read()
 suite = re.findall(r"test result: (\w+)\. (\d+) passed; (\d+) failed", log.split("== demo with change")[0])
 demo_with = log.split("== demo with change")[1].split("== demo without change")[0] if "== demo with change" in log else ""
 demo_without = log.split("== demo without change")[1] if "== demo without change" in log else ""
-meta["breaks_property"] = p
+meta["breaks_property"] = p[:3]
 meta["confirmed_by_verifier"] = {
     "what_was_run": f"/verif/seedcheck.sh {p} {n} (in the scratch worktree: full `cargo test --offline --no-fail-fast` with the patch, then the demonstration with and without the patch)",
     "suite_with_change": {"binaries": len(suite), "passed": sum(int(s[1]) for s in suite), "failed": sum(int(s[2]) for s in suite)},
     "demo_with_change": re.findall(r"test result: .*", demo_with),
     "demo_without_change": re.findall(r"test result: .*", demo_without),
 }
-checks = sys.argv[3:] or [p]
+checks = sys.argv[3:] or [p[:3]]
 subprocess.run(["git", "-C", "/repo", "apply", os.path.join(dst, "patch.diff")], check=True)
 det = {}
 try:
